@@ -155,7 +155,20 @@ def run(tier, replay_path, t0):
     for v in viols:
         e = events[v["line"] - 1]
         sig, detail = diff_signature(e["final"], e["serials"], e["w"]) if v["m"] == "Serializable" else ("hang", "")
-        key = "C20/%s/%s|%s" % (v["m"], e["r"], sig)
+        # the identity of a finding is its root cause, as far as the schedule shows it:
+        #  - a block arrived strictly inside a refresh (its sections then use different chain views)
+        #  - anything ran strictly inside a scan (scan keeps a chain view and a wallet snapshot across sections)
+        #  - otherwise: which tables were clobbered
+        inside = [o for o in e["opres"] if isinstance(o.get("at"), int) and 0 < o["at"] < e["sections"]]
+        if v["m"] != "Serializable":
+            cause = "hang"
+        elif e["r"] == "refresh" and any(o["ev"] == "mine" for o in inside):
+            cause = "block-arrives-mid-refresh"
+        elif e["r"] == "scan" and inside:
+            cause = "operation-or-block-mid-scan"
+        else:
+            cause = sig
+        key = "C20/%s/%s|%s" % (v["m"], e["r"], cause)
         if key not in keys:
             keys[key] = {"scenario": {k: scen[e["b"]][k] for k in ("prefix", "r", "ops")}, "sched": e["sched"], "setup": setup,
                          "opres": e["opres"], "rres": e["rres"], "count": 0, "fields": detail, "opkinds": e["opkinds"]}
